@@ -83,7 +83,13 @@ impl<const PT: u8, const MIN: usize> RtcpPacketWriter for CustomBuilder<PT, MIN>
 
     fn get_padding(&self) -> Option<u8> {
         if self.padding == 0 {
-            None
+            // both conventions occur downstream: "None when unpadded" and `Some(self.padding)`; the
+            // odd-numbered members of the family use the second one
+            if PT % 2 == 1 {
+                Some(0)
+            } else {
+                None
+            }
         } else {
             Some(self.padding)
         }
